@@ -766,6 +766,8 @@ def judge(ctx, traces, label):
             from . import rdb_sched
 
             f = ctx.match_known(rdb_sched.K1_SIG) if rdb_sched.concurrent_cas(t) else None
+            if f is None and rdb_sched.write_races_finish(t):
+                f = ctx.match_known(rdb_sched.K14_SIG)
             if f is not None:
                 ctx.known_finding(f, f"threads of one process on SQLite, e.g. {calls}")
                 continue
